@@ -1380,6 +1380,16 @@ class Terms:
                         continue
                     derived.add(s2["place"]["l"])
                     changed = True
+        # the reference itself handed on to a call (`list.retain(..)`, `helper(x)`): not followed here — the caller falls back
+        # to the opaque update
+        for b in reach:
+            t2 = body.blocks[b]["term"]
+            if body.blocks[b]["cleanup"] or not t2 or t2["k"] != "call":
+                continue
+            for a in t2["args"]:
+                if a["k"] in ("copy", "move") and a["place"]["l"] in derived and not any(e["k"] == "deref" for e in a["place"]["p"]):
+                    if not (b == cb and a["place"]["l"] == d_l):
+                        return None
         writes = []
         for x in sorted(derived - {d_l}):
             for site in self.rd.by_local.get(x, []):
